@@ -240,9 +240,17 @@ def ext_finditer(eng, path, args, kwargs):
 
 
 def ext_sub(eng, path, args, kwargs):
-    pat, repl, text = args[0], args[1], args[2]
+    pat, repl, text = kwargs.get("pattern", args[0] if args else None), kwargs.get("repl", args[1] if len(args) > 1 else None), \
+        kwargs.get("string", args[2] if len(args) > 2 else None)
     count = args[3] if len(args) > 3 else kwargs.get("count", 0)
     flags = kwargs.get("flags", args[4] if len(args) > 4 else 0)
+    from .symex import Closure
+    if isinstance(repl, Closure) and isinstance(pat, str) and is_strv(text):
+        # a callable replacement: the result is some string (a function of pattern and text); nothing is claimed about it
+        key = ("re.sub/callable", pat, str_key(text))
+        if key not in path.memo:
+            path.memo[key] = SStr([Atom(eng.fresh("resubf", StrS), "opq")])
+        return path.memo[key]
     if isinstance(pat, str):
         from .strre import const_sub
         return const_sub(eng, path, pat, repl, text, count, flags)
